@@ -234,16 +234,19 @@ def run(prop_id, prop, tier, seed, replay, only, scratch, t0):
         binpath = build_binary(scratch)
         if not binpath:
             return 2
-    testbin = build_test(prop["pkg"], scratch)
-    if not testbin:
-        return 2
+    testbins = {}
+    for pkg in sorted(set([prop["pkg"]] + [p["pkg"] for p in prop["parts"] if "pkg" in p])):
+        testbins[pkg] = build_test(pkg, scratch)
+        if not testbins[pkg]:
+            return 2
+    testbin = testbins[prop["pkg"]]
     known = load_known()
 
     if replay:
         part_name = json.load(open(replay)).get("part", "")
         parts = [p for p in prop["parts"] if p["name"] == part_name] or prop["parts"][:1]
         sh = Shard(parts[0], 0, 1, scratch)
-        run_shard(sh, testbin, prop_id, tier, seed, binpath, scratch, replay=replay)
+        run_shard(sh, testbins[parts[0].get("pkg", prop["pkg"])], prop_id, tier, seed, binpath, scratch, replay=replay)
         text = open(sh.logf, errors="replace").read()
         sys.stdout.write(text[-6000:])
         if sh.timed_out:
@@ -267,7 +270,7 @@ def run(prop_id, prop, tier, seed, replay, only, scratch, t0):
         for idx in range(n):
             shards.append(Shard(part, idx, n, scratch))
     with ThreadPoolExecutor(max_workers=MAXPROCS) as ex:
-        list(ex.map(lambda s: run_shard(s, testbin, prop_id, tier, seed, binpath, scratch), shards))
+        list(ex.map(lambda s: run_shard(s, testbins[s.part.get("pkg", prop["pkg"])], prop_id, tier, seed, binpath, scratch), shards))
 
     violations, known_lines, inconclusive = [], [], []
     agg = {"evaluations": 0, "hashes": set(), "classes": {}, "samples": [], "excluded": {}, "notes": [], "parts": {}}
